@@ -166,6 +166,9 @@ MUTANTS = [
     ("C12-take-leaves-input", "T2", "take() moves the payload out but leaves the accumulated input behind",
      [(RL + "relayer/write/conversion.rs", "        let input = std::mem::take(&mut next.input);\n",
        "        let input = next.input.clone();\n", 0)]),
+    ("C12-excluded-rollup-ends-loop", "T3", "an excluded rollup ends the loop: later rollups of the block are dropped",
+     [(RL + "relayer/write/conversion.rs", "                self.meta.rollups_excluded.insert(elem.rollup_id());\n",
+       "                self.meta.rollups_excluded.insert(elem.rollup_id());\n                break;\n", 0)]),
     ("C08-right-child-midpoint", "M4", "re-attached right child taken as the midpoint of the remaining nodes",
      [(MK + "lib.rs",
        "        let root = complete_root(n.checked_sub(i_plus_one).unwrap());\n        i_plus_one.checked_add(root).unwrap()",
